@@ -1,16 +1,17 @@
 // ======================================================================================
 // spec.rs -- executable point-set semantics on exact integer coordinates (the oracle).
 // Same definitions as contracts/verus/prelude_geo.rs / c02_ring.rs, over i64.
-// Inputs are lattice points with |c| <= 2^14, so every expression below is exact in i32 (the SAME width as the code under test instantiated at i32: the SAT instance then shares the multipliers).
+// Inputs are lattice points with |c| <= 2^14, so every expression below is exact in i16 for |c| <= 64 (the SAME width as the code under test instantiated at i16: the SAT instance then shares the multipliers).
 // ======================================================================================
 pub(crate) mod spec {
+    pub type S = i16;
     #[derive(Clone, Copy, PartialEq, Eq, Debug)]
-    pub struct P { pub x: i32, pub y: i32 }
+    pub struct P { pub x: S, pub y: S }
 
     #[derive(Clone, Copy, PartialEq, Eq, Debug)]
     pub enum Pos { Inside, OnBoundary, Outside }
 
-    pub fn cross(p: P, q: P, r: P) -> i32 {
+    pub fn cross(p: P, q: P, r: P) -> S {
         (q.x - p.x) * (r.y - q.y) - (q.y - p.y) * (r.x - q.x)
     }
     /// +1 counter-clockwise, -1 clockwise, 0 collinear
@@ -18,7 +19,7 @@ pub(crate) mod spec {
         let c = cross(p, q, r);
         if c > 0 { 1 } else if c < 0 { -1 } else { 0 }
     }
-    pub fn between(v: i32, a: i32, b: i32) -> bool { (a <= v && v <= b) || (b <= v && v <= a) }
+    pub fn between(v: S, a: S, b: S) -> bool { (a <= v && v <= b) || (b <= v && v <= a) }
     pub fn on_segment(p: P, a: P, b: P) -> bool {
         cross(a, b, p) == 0 && between(p.x, a.x, b.x) && between(p.y, a.y, b.y)
     }
